@@ -169,6 +169,7 @@ type PlanOpts struct {
 	PublicName       string
 	RefOuterVersions bool // reference the outer supported_versions instead of carrying an own one
 	RefOuterALPN     bool // the inner hello's ALPN extension is the outer one, referenced through ech_outer_extensions (what clients do when both offer the same protocols)
+	OuterPad         int  // the outer hello carries an RFC 7685 padding extension of this many zero bytes (-1: none)
 	InnerSIDLen      int  // legacy_session_id of the EncodedClientHelloInner: 0 as the draft requires; some encoders leave the outer value in, which servers tolerate (it is replaced by the outer one either way)
 }
 
@@ -204,6 +205,10 @@ func Plan(r *rand.Rand, o PlanOpts) *InnerPlan {
 	}
 	for i := 0; i < o.NOuterOpaque; i++ {
 		oexts = append(oexts, RandomExt(r, used, o.MaxExtLen))
+	}
+	if o.OuterPad > 0 && !used[21] {
+		oexts = append(oexts, Ext{Type: 21, Data: make([]byte, o.OuterPad)})
+		used[21] = true
 	}
 	r.Shuffle(len(oexts), func(i, j int) { oexts[i], oexts[j] = oexts[j], oexts[i] })
 	outer.Exts = oexts
